@@ -1172,18 +1172,6 @@ class Session:
         its cache) and goes back to the pool.  The walk that follows starts from d0 and reaches d1 and d2 both
         directly and through that pooled pair: one in-memory object per (database, oid) in the whole group."""
         recs = self._all_records(self.storages[1])
-        # (only if nothing in d1 and d2 refers to d0: get_connection hands the merged map to the adopted primary
-        # but not to the siblings attached to it, so a reference from d2 into d0 would open a second d0
-        # connection — reported as a finding, not generated here)
-        for i in (1, 2):
-            for data in self._all_records(self.storages[i]).values():
-                try:
-                    c_, a_, s_, _ = decode_record(data)
-                except Exception:
-                    return False
-                for t in tree_leaves((a_ or []) + s_):
-                    if (t[0] in 'MN' and t[1:].split(':')[0] == '0') or (t[0] == 'W' and t.endswith(':0')):
-                        return False
         for oid in sorted(recs):
             try:
                 c_, a_, s_, _ = decode_record(recs[oid])
@@ -1195,7 +1183,7 @@ class Session:
                 continue                          # (touching d0 here would pair a second d0 connection)
             recs2 = self._all_records(self.storages[2])
             clean = True
-            for t in cross:                       # ... and the targets themselves must not lead out of d2
+            for t in cross:                       # ... and the targets activated here must not lead out of d2
                 toid = bytes.fromhex((t[1:].split(':')[1] if t[0] in 'MN' else t[1:].split(':')[0])[1:])
                 try:
                     c2_, a2_, s2_, _ = decode_record(recs2[toid])
@@ -1289,6 +1277,8 @@ class Session:
                 c14_classes.show_gone()
                 for db in dbs:
                     close_db(db)
+        if variant == 'fresh' and locals().get('routed'):
+            variant = 'fresh-routes'
         for dup, out, args_seen in res:
             self.emit(lenv, 'ok')
             self.emit('lwalk ' + ktxt, canon_walk('dup=%d | %s' % (dup, ' | '.join(out))))
@@ -1988,7 +1978,8 @@ class Oracle:
     def loaded(self, dup, out, variant, missing, args_seen=None, expect=None):
         s = self.s
         if dup:
-            s.violation('C14:identity', '%s: %d references or get() calls yielded a second in-memory '
+            s.violation('C14:group-sibling-map' if variant == 'fresh-routes' else 'C14:identity',
+                        '%s: %d references or get() calls yielded a second in-memory '
                         'object for an oid' % (variant, dup))
         for entry in out:
             key, _, val = entry.partition('=')
